@@ -601,6 +601,33 @@ theorem C03_builtin_purify_width_num_names (f : Nat) (s : St) (v : Val) (x : Str
   · rcases valToStr_cases hx with rfl | ⟨m, rfl, rfl⟩ <;> rfl
   · rintro o (rfl | rfl | rfl) <;> exact ⟨rfl, by ill1⟩
 
+/-- **`width$` "takes the literal literally … except that special characters are handled
+specially".**  With `C12_width_onepass` / `C12_width_literal`: for every string within the nesting
+limit `width$` pushes the scanner-free one-pass width (`Spec.widthOnePass` over the regenerated
+width table): every character outside a special character counts with its own width, braces and
+backslashes included; a special character is a `{` at brace level 0 immediately followed by a
+backslash and nothing else (repair C03-2).  In particular a string without special character has
+the sum of the widths of its characters.  (What the text of a special character adds is pybtex's
+rule, not BibTeX's: recorded finding `C03-width-special-char-contents`.) -/
+theorem C03_builtin_width_spec (f : Nat) (s : St) (x : Str) (r : List Val)
+    (hd : Spec.maxDepth 0 x ≤ maxLevel) :
+    runBuiltin (f+1) .width { s with stack := .str x :: r } =
+      .ok { s with stack := .int (Spec.widthOnePass widthOf x) :: r } ∧
+    (Spec.noSpecial x = true →
+      runBuiltin (f+1) .width { s with stack := .str x :: r } =
+        .ok { s with stack := .int (x.map widthOf).sum :: r }) := by
+  have h := (C03_builtin_purify_width_num_names f s (.str x) x r rfl).2.1
+  refine ⟨?_, fun hn => ?_⟩
+  · rw [h, bibtexWidthStd, C12_width_onepass widthOf x hd]
+  · rw [h, bibtexWidthStd, C12_width_literal widthOf x hd hn]
+
+theorem C03_builtin_width_spec_nonvacuous :
+    Spec.maxDepth 0 "{x\\y}".toList ≤ maxLevel ∧ Spec.noSpecial "{x\\y}".toList = true ∧
+    ("{x\\y}".toList.map widthOf).sum = 2556 ∧
+    (runBuiltin 1 .width { ({ vars := initVars } : St) with stack := [.str "{x\\y}".toList] }).toOption.map
+      (fun s => s.stack.map shown) = some ["2556".toList] := by
+  decide +kernel
+
 /-- **`num.names$` counts the names.**  With the characterisation of `split_name_list` proved for
 C01 (`BibRT.split_names_spec`, published as `C01_split_names_spec`): for a name list written as
 `n + 1` names joined by `n` separators — each separator a spelling of ` and ` (a blank, `a`/`A`,
